@@ -64,6 +64,7 @@ RoundTrip(p) ==
   { <<OpsOp(p), L("create", "keys", <<KEd, KOct>>), BNewOp, BSetKeyOp("none", 0), GenerateOp(0), CNewOp, CSetKeyOp("none", 0), VerifyOp(SlotTok(0))>> }
 Provs == IF Quick THEN {"openssl"} ELSE Providers
 C17Scripts == LoadScenarios \cup UNION { BuilderScenarios(p) \cup CheckerScenarios(p) \cup RoundTrip(p) : p \in Provs }
-              \cup (IF Quick THEN UNION { { s \in CheckerScenarios("gnutls") : s[2].op = "Load" /\ s[2].keys[1].kty # "oct" } } ELSE {})
+              \cup (IF Quick THEN { s \in CheckerScenarios("gnutls") : s[2].op = "Load" /\ s[2].keys[1].kty # "oct" }
+                                  \cup { s \in BuilderScenarios("gnutls") : s[2].op = "Load" /\ s[2].keys[1].kty # "oct" } ELSE {})
 MCSpec == ISpecWith(C17Scripts)
 =============================================================================
